@@ -51,6 +51,15 @@ def split_oracle(n, k, kind):
             keys = [list(p.keys()) for p in parts]
             if [x for l in keys for x in l] != list(ds.keys()):
                 out.append(('keys_partition', {'n': n, 'k': k, 'keys': keys}))
+            # the keyed views of the shards: items() pairs and lookups by the shard's own keys
+            items = [outcome(lambda: list(p.items()), lambda x: x) for p in parts]
+            want = [list(zip(ks, l)) for ks, l in zip(keys, lists)]
+            if [it.get('ok') for it in items] != want:
+                out.append(('items_partition', {'n': n, 'k': k, 'items': items, 'want': want}))
+            for p, ks, l in zip(parts, keys, lists):
+                if [outcome(lambda: p[kk]) for kk in ks] != [{'ok': v} for v in l]:
+                    out.append(('shard_key_lookup', {'n': n, 'k': k, 'keys': ks}))
+                    break
     return out
 
 
